@@ -771,6 +771,12 @@ async fn read_table(a: &ShardArgs) {
     let mut cases: Vec<(u8, u8)> = crate::verif::util::all_variations().iter().map(|v| v.to_group_and_var()).collect();
     // and a few the library does not know
     cases.extend([(5u8, 1u8), (31, 9), (33, 9), (60, 5), (60, 0), (1, 3), (200, 1), (255, 255), (43, 9), (35, 1)]);
+    // device attributes: the two special variations (all attributes, list of variations) whether the table lists them or not
+    for v in [0u8, 254, 255] {
+        if !cases.contains(&(0, v)) {
+            cases.push((0, v));
+        }
+    }
     let mut seq = 0u8;
     let mut n = 0u64;
     for (g, v) in cases {
@@ -783,6 +789,9 @@ async fn read_table(a: &ShardArgs) {
             let b = ra::B::request(ra::F_READ, seq);
             let (rq, range, count, qn): (Vec<u8>, Option<(u32, u32)>, Option<u32>, &str) = match q {
                 0 => (b.all(g, v).done(), None, None, "all"),
+                // (for device attributes the range names one attribute set: start = stop)
+                1 if g == 0 => (b.range8(g, v, 0, 0, &[]).done(), Some((0, 0)), None, "range8"),
+                2 if g == 0 => (b.range16(g, v, 0, 0, &[]).done(), Some((0, 0)), None, "range16"),
                 1 => (b.range8(g, v, 0, 1, &[]).done(), Some((0, 1)), None, "range8"),
                 2 => (b.range16(g, v, 1, 2, &[]).done(), Some((1, 2)), None, "range16"),
                 3 => (b.count8(g, v, 2, &[]).done(), None, Some(2), "count8"),
